@@ -168,6 +168,9 @@ Section BeamCorrect.
   Local Notation hf := (hashf G).
   Local Notation gus l := (get_unique_states G l (hashes G l)).
 
+  (* lia without the (irrelevant) arithmetic section hypothesis, so that lemmas do not depend on it needlessly *)
+  Ltac lia_ns := try clear same_len; lia.
+
   (* ---------------------------------------------------------------- *)
   (** ** Expansion and de-duplication *)
 
@@ -320,12 +323,12 @@ Section BeamCorrect.
     - intros t Ht. destruct (Hl' t Ht) as [HU (x & g & Hx & Hg & ->)]. split; auto.
       constructor; auto. apply Hlay; auto.
     - intros ->. destruct (Hrl eq_refl) as (rl & Hbl & Hall & Hhd & Hlen).
-      destruct rl as [|l0 rest]; [simpl in Hlen; lia|]. cbn [hd] in Hhd. subst l0.
+      destruct rl as [|l0 rest]; [simpl in Hlen; lia_ns|]. cbn [hd] in Hhd. subst l0.
       exists (l' :: s_layer st :: rest). split; [|split; [|split]].
       + constructor; auto.
       + rewrite Hall. reflexivity.
       + reflexivity.
-      + simpl in *. lia.
+      + simpl in *. lia_ns.
   Qed.
 
   Lemma SInv_init sels : SInv true {| s_i := 0; s_layer := [start]; s_layer_h := [hf start];
@@ -485,7 +488,7 @@ Section BeamCorrect.
     - split; [exact Hlt|].
       rewrite (nth_indep _ false (isin_ss1 hay 0)) in H by (rewrite map_length; exact Hlt).
       rewrite map_nth in H. exact H.
-    - rewrite nth_overflow in H by (rewrite map_length; lia). discriminate.
+    - rewrite nth_overflow in H by (rewrite map_length; lia_ns). discriminate.
   Qed.
 
   Section Ball.
@@ -504,7 +507,7 @@ Section BeamCorrect.
       apply (reach_walk state (acts G)) in Hr. destruct Hr as (s & p & Hs & Hlen & Hw).
       destruct Hs as [<- | []]. unfold walk in Hw.
       destruct (revert_path_valid G U U_closed m c t p Hm c_U Hw) as (q & _ & Hlq & Hrun).
-      exists q. split; [lia | exact Hrun].
+      exists q. split; [lia_ns | exact Hrun].
     Qed.
 
     Lemma simple_iter_inr_ball width rp ns st r :
@@ -784,16 +787,16 @@ Section BeamCorrect.
                 path_found r = true /\ path_length r = d.
     Proof.
       intros [Hd Hmin]. induction k as [|k IH]; intros n st Hi Hlay Hn.
-      - destruct n as [|n]; [lia|]. cbn [loop_nat].
+      - destruct n as [|n]; [lia_ns|]. cbn [loop_nat].
         destruct (simple_iter_unpruned inv_map st Hlay) as [Hf _].
         rewrite Hf.
-        + eexists. split; [reflexivity|]. cbn [path_found path_length]. split; auto; lia.
-        + replace (S (s_i st)) with d by lia. exact Hd.
-      - destruct n as [|n]; [lia|]. cbn [loop_nat].
+        + eexists. split; [reflexivity|]. cbn [path_found path_length]. split; auto; lia_ns.
+        + replace (S (s_i st)) with d by lia_ns. exact Hd.
+      - destruct n as [|n]; [lia_ns|]. cbn [loop_nat].
         destruct (simple_iter_unpruned inv_map st Hlay) as [_ Hc].
         destruct Hc as (st' & Hb & Hi' & Hlay').
-        { apply Hmin. lia. }
-        rewrite Hb. apply IH; auto; lia.
+        { apply Hmin. lia_ns. }
+        rewrite Hb. apply IH; auto; lia_ns.
     Qed.
 
     Lemma simple_unpruned_exact_aux inv_map max_steps d :
@@ -806,7 +809,7 @@ Section BeamCorrect.
         rewrite <- Hd, Z.eqb_refl. eexists. split; [reflexivity|]. auto.
       - destruct (hf c =? hf start) eqn:E0.
         + exfalso. apply Z.eqb_eq in E0. apply start_is_c in E0.
-          destruct Hdist as [_ Hmin]. apply (Hmin 0%nat); [lia|]. constructor. left. auto.
+          destruct Hdist as [_ Hmin]. apply (Hmin 0%nat); [lia_ns|]. constructor. left. auto.
         + destruct (simple_loop_exact inv_map (S d) Hdist d (N.to_nat max_steps)
                       {| s_i := 0; s_layer := [start]; s_layer_h := [hf start];
                          s_all_h := [[hf start]]; s_sels := [] |})
@@ -849,9 +852,9 @@ Section BeamCorrect.
             destruct (isin1 cc (hf t)) eqn:Ei; auto. exfalso.
             apply isin1_iff in Ei. destruct (Hhist _ Ei) as (j & t' & Hj & HUt' & HRt' & Heq).
             assert (t = t'). { apply NoColl; auto. eapply R_U; eauto. }
-            subst t'. apply (Hm j); auto; lia. }
+            subst t'. apply (Hm j); auto; lia_ns. }
           destruct (dist_class_nonempty state st_eq_dec (acts G) [start] c d (conj Hd Hmin) (S k))
-            as (x & Hx); [lia|].
+            as (x & Hx); [lia_ns|].
           assert (Hexk : existsb (keep cc) new = true).
           { apply existsb_exists. exists x. split; auto. }
           rewrite Hexk. cbv beta iota zeta.
@@ -869,15 +872,15 @@ Section BeamCorrect.
                   exists (S k), t. destruct (HU2 t Ht). auto.
                ++ apply In_skipn in Hh. apply nth_In_or_nil in Hh.
                   destruct (Hhist h Hh) as (j & t & Hj & HUt & HRt & Heq).
-                  exists j, t. repeat split; auto; lia.
+                  exists j, t. repeat split; auto; lia_ns.
             -- destruct (Hhist h Hh) as (j & t & Hj & HUt & HRt & Heq).
-               exists j, t. repeat split; auto; lia.
+               exists j, t. repeat split; auto; lia_ns.
         + assert (Hw : (width <? length new)%nat = false).
           { apply Nat.ltb_ge. apply Nat.lt_le_incl. apply U_small; auto. intros t Ht. apply HU2; auto. }
           rewrite Hw. eexists. split; [reflexivity|].
           unfold AUInv; cbn [a_step a_beam a_cols]. split; [congruence|]. split; [|split]; auto.
           intros h Hh. destruct (Hhist h Hh) as (j & t & Hj & HUt & HRt & Heq).
-          exists j, t. repeat split; auto; lia.
+          exists j, t. repeat split; auto; lia_ns.
     Qed.
 
     Lemma adv_loop_exact hd d :
@@ -887,13 +890,13 @@ Section BeamCorrect.
       inr (Ok {| path_found := true; path_length := d; bpath := None |}).
     Proof.
       intros Hdist. induction m as [|m IH]; intros n st k Hkm Hinv Hn.
-      - destruct n as [|n]; [lia|]. cbn [loop_nat].
+      - destruct n as [|n]; [lia_ns|]. cbn [loop_nat].
         destruct (adv_iter_unpruned hd d st k Hdist Hinv) as [Hf _].
-        rewrite Hf; [reflexivity | lia].
-      - destruct n as [|n]; [lia|]. cbn [loop_nat].
+        rewrite Hf; [reflexivity | lia_ns].
+      - destruct n as [|n]; [lia_ns|]. cbn [loop_nat].
         destruct (adv_iter_unpruned hd d st k Hdist Hinv) as [_ Hc].
-        destruct Hc as (st' & Hb & Hinv'); [lia|].
-        rewrite Hb. apply (IH n st' (S k)); auto; lia.
+        destruct Hc as (st' & Hb & Hinv'); [lia_ns|].
+        rewrite Hb. apply (IH n st' (S k)); auto; lia_ns.
     Qed.
 
     Lemma advanced_unpruned_exact_aux history max_steps d :
@@ -907,7 +910,7 @@ Section BeamCorrect.
         eexists. split; [reflexivity|]. auto.
       - destruct (state_eqb start c) eqn:E0.
         + exfalso. apply z_list_eqb_eq in E0.
-          destruct Hdist as [_ Hmin]. apply (Hmin 0%nat); [lia|]. constructor. left. auto.
+          destruct Hdist as [_ Hmin]. apply (Hmin 0%nat); [lia_ns|]. constructor. left. auto.
         + rewrite (adv_loop_exact history (S d) Hdist d (N.to_nat max_steps) _ 0%nat); auto.
           * eexists. split; [reflexivity|]. auto.
           * unfold AUInv; cbn [a_step a_beam a_cols]. split; [reflexivity|]. split; [|split].
